@@ -463,42 +463,45 @@ func getMethodMapName(method core_domain.CodeFunction) string {
 func (s *JavaFullListener) EnterCreator(ctx *parser.CreatorContext) {
 	variableName := ctx.GetParent().GetParent().GetChild(0).(antlr.ParseTree).GetText()
 	allIdentifiers := ctx.CreatedName().(*parser.CreatedNameContext).AllIdentifier()
-
-	for _, identifier := range allIdentifiers {
-		createdName := identifier.GetText()
-		localVars[variableName] = createdName
-
-		buildCreatorCall(createdName, ctx)
-
-		if currentMethod.Name == "" {
-			return
-		}
-
-		if ctx.ClassCreatorRest() == nil {
-			return
-		}
-
-		if ctx.ClassCreatorRest().(*parser.ClassCreatorRestContext).ClassBody() == nil {
-			return
-		}
-
-		currentType = "CreatorClass"
-		text := ctx.CreatedName().GetText()
-		creatorNode := &core_domain.CodeDataStruct{
-			Package:       currentPkg,
-			NodeName:      text,
-			Type:          "CreatorClass",
-			FilePath:      "",
-			Fields:        nil,
-			Functions:     nil,
-			FunctionCalls: nil,
-			Extend:        "",
-			Implements:    nil,
-			Annotations:   nil,
-		}
-
-		currentCreatorNode = *creatorNode
+	if len(allIdentifiers) < 1 {
+		// new int[3]: no class is created
+		return
 	}
+
+	// new Outer.Inner(), new java.util.ArrayList<>(): the created type is the last name
+	createdName := allIdentifiers[len(allIdentifiers)-1].GetText()
+	localVars[variableName] = createdName
+
+	buildCreatorCall(createdName, ctx)
+
+	if currentMethod.Name == "" {
+		return
+	}
+
+	if ctx.ClassCreatorRest() == nil {
+		return
+	}
+
+	if ctx.ClassCreatorRest().(*parser.ClassCreatorRestContext).ClassBody() == nil {
+		return
+	}
+
+	currentType = "CreatorClass"
+	text := ctx.CreatedName().GetText()
+	creatorNode := &core_domain.CodeDataStruct{
+		Package:       currentPkg,
+		NodeName:      text,
+		Type:          "CreatorClass",
+		FilePath:      "",
+		Fields:        nil,
+		Functions:     nil,
+		FunctionCalls: nil,
+		Extend:        "",
+		Implements:    nil,
+		Annotations:   nil,
+	}
+
+	currentCreatorNode = *creatorNode
 }
 
 func (s *JavaFullListener) ExitCreator(ctx *parser.CreatorContext) {
